@@ -171,6 +171,11 @@ class Dims:
             d = db if da == POLY else da
             return d if d not in (None, BOOL) else None
         if da in (None, BOOL) or db in (None, BOOL):
+            # a sum with one known difference: the other side has the same unit
+            if da is None and db not in (None, BOOL) and not any(db[i] for i in self.affine_ix()):
+                self.solve_for(fn, a, db, line)
+            if db is None and da not in (None, BOOL) and not any(da[i] for i in self.affine_ix()):
+                self.solve_for(fn, b, da, line)
             return None
         r = self.add_dims(da, db, op)
         if sites is not None:
@@ -205,8 +210,17 @@ class Dims:
                     self.dim(fn, a, sites, line)
             return self.getters.get(q)
         if q in self.getters:
-            for a in args:
-                self.dim(fn, a, sites, line)
+            callee = self.scope.get((q, len(args)))
+            if callee is not None:
+                for p, a in zip(callee['params'], args):
+                    if not p['n']:
+                        self.dim(fn, a, sites, line)
+                        continue
+                    pv = ('var', 'parm', p['n'], p.get('at', 0))
+                    self.unify_dims(fn, self.dim(fn, a, sites, line), a, callee, pv, sites, line, 'argument %s of %s' % (p['n'], q.rsplit('::', 1)[-1]))
+            else:
+                for a in args:
+                    self.dim(fn, a, sites, line)
             return self.getters[q]
         if q == '<indirect>' and obj is not None and obj[0] == 'field' and obj[2] in self.indirect_fields:
             i = self.indirect_fields[obj[2]]
@@ -214,7 +228,7 @@ class Dims:
         if q.endswith('::operator()') and obj is not None and obj[0] == 'field' and obj[2] in self.indirect_fields:
             i = self.indirect_fields[obj[2]]
             return self.dim(fn, args[i], sites, line) if len(args) > i else None
-        callee = self.scope.get(q)
+        callee = self.scope.get((q, len(args)))
         if callee is not None:
             for p, a in zip(callee['params'], args):
                 if not p['n']:
@@ -327,7 +341,7 @@ class Dims:
     # -- driver ---------------------------------------------------------------------------------------------------------------------------------
     def run(self, analyzer, fns, skip_macros=()):
         """two inference rounds (so that uses before definitions and helper parameters resolve), then one recording round"""
-        self.scope = {f['q']: f for f in fns}
+        self.scope = {(f['q'], len(f['params'])): f for f in fns}      # overloads are told apart by their arity
         self.votes = {}
         ROUNDS = 6
         for rnd in range(ROUNDS):
